@@ -214,3 +214,5 @@ package candidates
 //@ # NOT declared: Candidates.pubKeyIDs (by lock) and Candidates.deletedCandidates (by muDeletedCandidates): helpers read
 //@ # them with the lock held by some callers and by none in others (existPubKey, id, loadStakes, loadDeletedCandidates
 //@ # from Export); the discipline is not established by the code, see DESIGN.md section 9
+//@ func (*Candidates).deleteCandaditeFromList #lockpre
+//@   requires wheld(c.lock)
